@@ -129,6 +129,9 @@ def _worker(driver, family, cases, results, env, per_case_timeout, args, scratch
                         results[cid] = json.loads(line[sp + 1:])
                     except ValueError:
                         results[cid] = {"crash": True, "stderr": "unparsable result: " + line[:300]}
+                    if isinstance(results[cid], dict):
+                        # where the case ran: worker, position in the worker's chunk, number of cases the SAME process ran before it
+                        results[cid].update(_wid=wid, _pos=i + done_here, _pre=done_here)
                     inflight = None
                     done_here += 1
         os.unlink(fin)
@@ -145,6 +148,19 @@ def _worker(driver, family, cases, results, env, per_case_timeout, args, scratch
         i += done_here + 1
 
 
+_last_runs = {}   # family -> the case list and process count of the last multi-case run (to rebuild what a process ran before a case)
+
+
+def predecessors(family, o, n):
+    """the (at most n) cases that the same driver process executed before the case whose observation is o"""
+    ctx = _last_runs.get(family)
+    if not ctx or not isinstance(o, dict) or "_pos" not in o:
+        return []
+    chunk = ctx["cases"][o["_wid"]::ctx["np"]]
+    n = min(n, o["_pre"])
+    return chunk[o["_pos"] - n:o["_pos"]]
+
+
 def run_driver(driver, family, cases, nproc=None, env=None, per_case_timeout=120, args=()):
     """Run cases (dicts with 'id') through 'driver run <family>' on several processes.
     Returns {id: result}. A process death is attributed to the case in flight ({'crash': True})."""
@@ -156,6 +172,8 @@ def run_driver(driver, family, cases, nproc=None, env=None, per_case_timeout=120
     for c in cases:
         c["id"] = str(c["id"])
     chunks = [cases[k::nproc] for k in range(nproc)]
+    if len(cases) > 1:
+        _last_runs[family] = {"cases": cases, "np": nproc}
     results = {}
     scratch = tempfile.mkdtemp(prefix="drv.", dir=os.path.dirname(driver))
     ths = [threading.Thread(target=_worker, args=(driver, family, ch, results, e, per_case_timeout, args, scratch, w))
